@@ -245,6 +245,32 @@ def apply_inner(reply, ops):
             label["wf"] = None
             label["why"] = "junk-after-" + op["name"]
             continue
+        if kind == "tag_alias":
+            # the element's tag written in high-tag-number form with the number + 256 * k: equal to the
+            # genuine tag only after truncation to eight bits - not the element it pretends to be
+            named = [n for _, n in nodes if n.name == op["name"] and n.raw is None]
+            if not named:
+                continue
+            node = named[0]
+            t = node.tag if isinstance(node.tag, int) else node.tag[0]
+            num = (t & 0x1F) + 256 * op.get("k", 1)
+            digits = []
+            while True:
+                digits.append(num & 0x7F)
+                num >>= 7
+                if not num:
+                    break
+            body = bytes([0x80 | d for d in reversed(digits[1:])] + [digits[0]])
+            node.tag = bytes([(t & 0xE0) | 0x1F]) + body
+            label["wf"] = False
+            label["why"] = "tag-alias"
+            label["tampered"] = node.name
+            body_names = ("request-id", "error-status", "error-index", "varbinds", "varbind", "name", "value")
+            if (label.get("pdu") == "report" and node.name in body_names) or (reply.sec is not None and reply.sec.get("priv_alg") and reply.sec.get("encrypt", True) and node.name in body_names + ("pdu", "scoped-pdu", "ctx-engine-id", "ctx-name")):
+                # the body of a Report is never parsed, and what is wrong inside a ciphertext may be
+                # dropped instead of reported: no claim
+                label["wf"] = None
+            continue
         if kind in ("len_form", "tag_form"):
             # exotic header encodings of one element: indefinite / reserved / oversized length forms,
             # high-tag-number identifier octets. Nothing is predicted: the datagram must not crash the client.
